@@ -52,9 +52,10 @@ theorem pushDefault_children (fs : BL) (k : Nat) (fs' : BL) (len : Nat) (hwf : W
   exact ExtL.wfl fs fs' adds len k hwf hext hk
 
 /-- scalar calls (`serialize_bool` … `serialize_bytes`) -/
-theorem pushScalar_appends (ext : Ext) (b : B) (x : SVal) (b' : B) (hwf : WFB b) (h : pushScalar ext b x = .ok b') :
+theorem pushScalar_appends (ext : Ext) (b : B) (x : SVal) (b' : B) (hwf : WFB b) (hsafe : Safe b)
+    (h : pushScalar ext b x = .ok b') :
     WFB b' ∧ ∃ lv, dec b' = dec b ++ [lv] := by
-  obtain ⟨a, lv, d, _⟩ := Build.pushScalar_appends ext b x b' hwf h
+  obtain ⟨a, lv, d, _⟩ := Build.pushScalar_appends ext b x b' hwf hsafe h
   exact ⟨a, lv, d⟩
 
 /-- **Leaf step with content.** A successful scalar push into a leaf builder appends the converted value
